@@ -29,8 +29,16 @@ def _eq(a, b):
     return a is b or (type(a) is type(b) and a == b)
 
 
+def _key_eq(a, b):
+    # positions in DIFFERENT trees are matched the way dict lookup matches keys: 6 and 6.0 are the same key
+    try:
+        return a is b or bool(a == b)
+    except Exception:  # noqa: BLE001
+        return False
+
+
 def _is_path_prefix(p, q):
-    return len(p) <= len(q) and all(_eq(x, y) for x, y in zip(p, q))
+    return len(p) <= len(q) and all(_key_eq(x, y) for x, y in zip(p, q))
 
 
 def outcome(f):
